@@ -287,7 +287,7 @@ def rule_gadgets(repo, rule):
     class _Scope:
         pass
     arm = None
-    cons_calls = [c for c in ast.walk(dm.node) if isinstance(c, ast.Call) and norm(c.func) == "add_constraint" and len(c.args) >= 3]
+    cons_calls = [c for c in ast.walk(dm.node) if isinstance(c, ast.Call) and norm(c.func).split(".")[-1] in EMITTERS and not norm(c.func).startswith("backend.") and len(c.args) >= 3]
     if cons_calls:
         st = cons_calls[0]
         while getattr(st, "_parent", None) is not None and not isinstance(st, ast.stmt):
@@ -306,7 +306,7 @@ def rule_gadgets(repo, rule):
         raise AnalysisError("__divmod__: no division constraint found")
     allocs = {norm(a.targets[0]): a for a in arm.body if isinstance(a, ast.Assign) and isinstance(a.value, ast.Call)
               and norm(a.value.func) == "PrivVal"}
-    cons = [c for s in arm.body for c in ast.walk(s) if isinstance(c, ast.Call) and norm(c.func) == "add_constraint" and len(c.args) >= 3]
+    cons = [c for s in arm.body for c in ast.walk(s) if isinstance(c, ast.Call) and norm(c.func).split(".")[-1] in EMITTERS and not norm(c.func).startswith("backend.") and len(c.args) >= 3]
     divisor = dm.params[1]
     s_ = dm.params[0]
     q = r = None
@@ -351,7 +351,7 @@ def rule_gadgets(repo, rule):
                            "divmod/ret")
     # exact division
     td = lc.methods["__truediv__"]
-    cons = [c for c in ast.walk(td.node) if isinstance(c, ast.Call) and norm(c.func) == "add_constraint" and len(c.args) >= 3]
+    cons = [c for c in ast.walk(td.node) if isinstance(c, ast.Call) and norm(c.func).split(".")[-1] in EMITTERS and not norm(c.func).startswith("backend.") and len(c.args) >= 3]
     if cons:
         a = [norm(x) for x in cons[0].args[:3]]
         res = {norm(x.targets[0]) for x in ast.walk(td.node) if isinstance(x, ast.Assign) and "PrivVal" in norm(x.value)}
@@ -449,7 +449,7 @@ def rule_gadgets(repo, rule):
                 rule.ok(fm.loc(hit), fm.fq, "%d emission(s), e.g. %s" % (len(nodes), norm(hit)), "every completing path says %s" % label)
     # ------------------------------------------------------------ sign test
     cp = lc.methods["check_positive"]
-    cons = [c for c in ast.walk(cp.node) if isinstance(c, ast.Call) and norm(c.func) == "add_constraint" and len(c.args) >= 3]
+    cons = [c for c in ast.walk(cp.node) if isinstance(c, ast.Call) and norm(c.func).split(".")[-1] in EMITTERS and not norm(c.func).startswith("backend.") and len(c.args) >= 3]
     retnames = {norm(a.targets[0]) for a in ast.walk(cp.node) if isinstance(a, ast.Assign) and isinstance(a.value, ast.Call)
                 and norm(a.value.func).endswith("PrivValBool")}
     bitnames = {norm(a.targets[0]) for a in ast.walk(cp.node) if isinstance(a, ast.Assign) and isinstance(a.value, ast.ListComp)
